@@ -5,6 +5,7 @@ import toygen
 import impl as implmod
 
 PROP = "C20"
+CONSTS = ['toy']          # constant tables of the models this property depends on
 RULE = ("random TOY images (as C06) driven by random interleavings of step / first_cycle_step / second_cycle_step / "
         "single_step in legal and illegal orders, snapshot (state, counters, markers, visualisation values, next_cycle) "
         "after every call; non-trivial = at least one rejected call and >=2 completed instructions; distinct = distinct "
